@@ -215,6 +215,7 @@ def call_rule_for(pid):
         debug_purity(W, ob)
         new_call_rule_for(pid)(W, ob)
         carried_rule_for(pid)(W, ob)
+        order_rule_for(pid)(W, ob)
     return rule
 
 
@@ -655,4 +656,246 @@ def carried_rule_for(pid):
                      '%s: a loop now carries %s from one iteration to the next, which it did not when reviewed (tables/carried.json): a value that used to be re-initialised per element / per '
                      'record / per player survives into the next one' % (fn, ', '.join('%d x %s' % (c, t) for t, c in extra.items())), None)
         ob.require_count(n, 1, 'functions with loops for %s' % pid)
+    return rule
+
+
+# ---------------------------------------------------------------------------------------------------------------------------------------
+# access order: per function and field, how its reads and writes are ordered
+# ---------------------------------------------------------------------------------------------------------------------------------------
+def _forward_reach(cfg):
+    """{block: blocks reachable from it without taking a back edge} -- the order in which one pass through the function body, or one iteration of a loop, runs"""
+    succ = {b: [x for x in cfg.succ[b] if x in cfg.reach and not cfg.dominates(x, b)] for b in cfg.reach}
+    memo = {}
+
+    def go(b):
+        if b in memo:
+            return memo[b]
+        memo[b] = set()
+        r = set()
+        for x in succ[b]:
+            r.add(x)
+            r |= go(x)
+        memo[b] = r
+        return r
+    import sys
+    sys.setrecursionlimit(10000)
+    for b in cfg.reach:
+        go(b)
+    return memo
+
+
+class _Reads:
+    """for every function the set of generic access paths rooted at its parameters that it may read: copies / moves of such places, arguments handed to functions outside
+    the crate, and the reads of crate callees mapped through the arguments.  Borrows are not reads; what is done with the borrow is."""
+
+    def __init__(self, W):
+        self.W = W
+        self.memo = {}
+
+    @staticmethod
+    def _rooted(ap):
+        return ap.root[0] in ('arg', 'upvar') or (ap.root[0] == 'expr' and (ap.root[1].startswith('self') or ap.root[1].startswith('arg')))
+
+    def events(self, fn, _stack=()):
+        """[(kind 'R', bb, idx, path)] for the function itself, callee reads included"""
+        W = self.W
+        cx = W.ctx(fn)
+        cfg = cfg_of(fn)
+        out = []
+
+        def path(pl):
+            try:
+                ap = cx.ap_carry(pl)
+            except Exception:
+                return None
+            if not self._rooted(ap):
+                return None
+            return ap.s(fn, generic=True)
+        for b in fn.blocks:
+            if b.cleanup or b.id not in cfg.reach:
+                continue
+            for i, st in enumerate(b.stmts):
+                if st.k != 'assign' or any(m.split('::')[-1] in SKIP_MACROS for m in st.span['mac']):
+                    continue
+                for op in st.rv.operands():
+                    if op.is_place() and op.place.proj:
+                        a = path(op.place)
+                        if a:
+                            out.append(('R', b.id, i, a))
+                if st.rv.place is not None and st.rv.k != 'ref' and st.rv.place.proj:
+                    a = path(st.rv.place)
+                    if a:
+                        out.append(('R', b.id, i, a))
+            t = b.term
+            if t.k != 'call' or any(m.split('::')[-1] in SKIP_MACROS for m in t.macros):
+                continue
+            n = len(b.stmts)
+            tg = [g for g in W.cg.targets(t.callee) if g.kind != 'closure']
+            if not tg:
+                for a2 in t.args:
+                    if a2.is_place():
+                        a = path(a2.place)
+                        if a and '.' in a:
+                            out.append(('R', b.id, n, a))
+                continue
+            for g in tg:
+                if g in _stack or g is fn:
+                    continue
+                mapping = {}
+                for i2, a2 in enumerate(t.args):
+                    nm = 'self' if g.local_name(i2 + 1) == 'self' else 'arg%d' % (i2 + 1)
+                    mapping[nm] = path(a2.place) if a2.is_place() else None
+                from .world import _subst_root
+                for e in self.of(g, _stack + (fn,)):
+                    r = _subst_root(e, mapping)
+                    if r is not None and '.' in r:
+                        out.append(('R', b.id, n, r))
+        return out
+
+    def of(self, fn, _stack=()):
+        if fn in self.memo:
+            return self.memo[fn]
+        res = set(a for _, _, _, a in self.events(fn, _stack))
+        if not _stack:
+            self.memo[fn] = res
+        return res
+
+
+def compute_orders(W):
+    """{function: {field path: [reads after a write, writes after a read, writes after a write]}} -- pairs of events on the same field of `self` where one event's
+    position can reach the other's without taking a loop's back edge (events in different branches are not ordered and not counted).  Reads = a statement or call argument that copies / borrows the
+    field (that is where a snapshot is taken); writes = stores and calls of crate functions whose effect summary includes the field.  Logging is ignored."""
+    from .world import Effects, _subst_root
+    E = Effects(W)
+    RD = _Reads(W)
+    res = {}
+    for f in W.fns():
+        if f.derived or 'tests' in f.path or 'sessions::builder' in f.path or f.kind == 'closure':
+            continue
+        cx = W.ctx(f)
+        cfg = cfg_of(f)
+        ev = {}       # field -> [(kind, bb, idx)]
+
+        def fld2(pl):
+            try:
+                a = cx.ap_carry(pl).s(f, generic=True)
+            except Exception:
+                return None
+            import re
+            return re.sub(r'\[[^\]]*\]', '[*]', a) if a.startswith('self.') else None
+
+        def fld(pl):
+            if not pl.proj:
+                return None
+            try:
+                a = cx.ap_carry(pl).s(f, generic=True)
+            except Exception:
+                return None
+            if not a.startswith('self.'):
+                return None
+            import re
+            a = re.sub(r'\[[^\]]*\]', '[*]', a)
+            return a
+        for b in f.blocks:
+            if b.cleanup or b.id not in cfg.reach:
+                continue
+            for i, s in enumerate(b.stmts):
+                if s.k != 'assign' or any(m.split('::')[-1] in SKIP_MACROS for m in s.span['mac']):
+                    continue
+                if s.place.proj:
+                    a = fld(s.place)
+                    if a:
+                        ev.setdefault(a, []).append(('W', b.id, i))
+            t = b.term
+            if t.k == 'call' and not any(m.split('::')[-1] in SKIP_MACROS for m in t.macros):
+                n = len(b.stmts)
+                if t.dest.proj:
+                    a = fld(t.dest)
+                    if a:
+                        ev.setdefault(a, []).append(('W', b.id, n))
+                for g in W.cg.targets(t.callee):
+                    if g.kind == 'closure':
+                        continue
+                    mapping = {}
+                    for i2, a2 in enumerate(t.args):
+                        nm = 'self' if g.local_name(i2 + 1) == 'self' else 'arg%d' % (i2 + 1)
+                        if a2.is_place():
+                            try:
+                                mapping[nm] = cx.ap_carry(a2.place).s(f, generic=True)
+                            except Exception:
+                                mapping[nm] = None
+                    for e in E.of(g):
+                        r = _subst_root(e, mapping)
+                        if r and r.startswith('self.'):
+                            import re
+                            ev.setdefault(re.sub(r'\[[^\]]*\]', '[*]', r), []).append(('W', b.id, n))
+        import re
+        for (k, bb, ix, a) in RD.events(f):
+            if a.startswith('self.'):
+                ev.setdefault(re.sub(r'\[[^\]]*\]', '[*]', a), []).append(('R', bb, ix))
+        # a std call handed `&mut self.x` writes it
+        for b in f.blocks:
+            t = b.term
+            if b.cleanup or b.id not in cfg.reach or t.k != 'call' or W.cg.targets(t.callee):
+                continue
+            for i2, ty in enumerate(t.arg_tys or []):
+                if ty.startswith('&mut ') and t.args[i2].is_place():
+                    a = fld2(t.args[i2].place)
+                    if a:
+                        ev.setdefault(a, []).append(('W', b.id, len(b.stmts)))
+        # reads and writes of a field and of what lies beneath it concern each other: group by the longest written path that is a prefix
+        written = sorted(set(a for a, lst in ev.items() if any(k == 'W' for k, _, _ in lst)))
+        grouped = {}
+        for a, lst in ev.items():
+            for w in written:
+                if a == w or a.startswith(w + '.') or a.startswith(w + '[') or w.startswith(a + '.') or w.startswith(a + '['):
+                    grouped.setdefault(w, []).extend(x for x in lst if a == w or x[0] == 'R')
+        fwd = _forward_reach(cfg)
+        out = {}
+        for a, lst in grouped.items():
+            lst = sorted(set(lst))
+            wr = rw = ww = 0
+            for (k1, b1, i1) in lst:
+                for (k2, b2, i2) in lst:
+                    if (b1, i1) == (b2, i2) and k1 == k2:
+                        continue
+                    first = (b1 == b2 and i1 < i2) or (b1 != b2 and b2 in fwd.get(b1, ()))
+                    if not first:
+                        continue
+                    if k1 == 'W' and k2 == 'R':
+                        wr += 1
+                    elif k1 == 'R' and k2 == 'W':
+                        rw += 1
+                    elif k1 == 'W' and k2 == 'W':
+                        ww += 1
+            out[a] = [wr, rw, ww]
+        if out:
+            res[short(f.path)] = out
+    return res
+
+
+def order_rule_for(pid):
+    """for every (function, field of self) the table knows: how many reads of the field come after a write of it, how many writes after a read, how many writes after a
+    write -- counted over pairs of events whose positions are ordered by dominance -- is what was reviewed.  Two statements swapped so that a snapshot is taken before
+    instead of after an update, a cursor advanced before instead of after the element is stored, a value read after the call that changes it, move one pair from one
+    count to another; statements on different fields, branches turned round, renamed locals, added logging do not."""
+    def rule(W, ob):
+        tab = _tab('orders.json')['functions']
+        cur = compute_orders(W)
+        n = 0
+        for fn, flds in sorted(cur.items()):
+            if pid not in CALLER_PROPS.get(fn.split('::')[0], []) or fn not in tab:
+                continue
+            for a, cnt in sorted(flds.items()):
+                if a not in tab[fn]:
+                    continue
+                n += 1
+                ref = tab[fn][a]
+                # a swap moves one ordered pair from "write after read" to "read after write" (or back) and leaves their sum alone; events that appear or disappear
+                # (a helper extracted, a read added) change the sum and are the business of the other inventories
+                swapped = cnt[0] + cnt[1] == ref[0] + ref[1] and cnt[:2] != ref[:2]
+                ob.check(not swapped, 'order|%s|%s' % (fn, a), '%s: reads / writes of `%s` are ordered as reviewed' % (fn, a),
+                         '%s: the order of the reads and writes of `%s` changed: [reads after a write, writes after a read, writes after a write] is now %s, reviewed %s -- a statement '
+                         'moved across another one that touches the same field, so something reads a value one step too old or too new' % (fn, a, cnt, tab[fn][a]), None)
+        ob.info('%d (function, field) access orders compared for %s' % (n, pid))
     return rule
